@@ -144,3 +144,12 @@ claim('C12',
       'Pressure-gradient equality and positivity/finiteness as numbers are NOT decided.',
       'Trusted: shape inference of dsa/shape.py (opaque on anything it cannot model: no verdict), resolver of dsa/resolve.py, positivity of geometric quantities for the power-symbol rules.',
       'DESIGN.md 4 C12')
+claim('C16',
+      'interprocedural alias/effect analysis (K6): access-path binding of input sub-dictionaries through parameters, locals and attributes, with clone/deepcopy/shallow-copy barriers; Material hand-off analysis; sibling-call comparison of serial vs parallel driver (CFG)',
+      'Structural necessary conditions of C16 (DESIGN 4.16): outside the input reader no statement stores through, deletes from, or calls a mutating method on a reference to the parsed input '
+      'dictionary - whether reached directly, through a parameter bound at any call site (fixpoint over the call graph), a local alias, or an attribute that was bound to an input container '
+      '(540 stores / mutator calls examined, synthetic positive example must fire on every run); input Material objects are cloned before being handed to anything that updates them, and the '
+      'one save/restore helper provably restores; the serial and parallel drivers make the same call with per-time-point directories and collect every result; no nondeterministic source flows '
+      'into solver state. Serial = parallel then follows because pool workers get pickled copies and the serial loop shares one object. Bitwise float identity is NOT decided.',
+      'Trusted: root names of the input object (dassh_input/inp/dassh_inp/...), resolver, schema-based container classification.',
+      'DESIGN.md 4 C16')
